@@ -7,8 +7,8 @@ import ZygoVerif.Proofs.ReadEager
 namespace ZygoVerif.Parser
 open ZygoVerif.Lexer
 
-/-- a view with nothing left to lex -/
-def tv (c : LexCore) (ex : List Sexp) : View := ⟨c, [], ex⟩
+/-- a view with nothing left to lex, of a text whose end has been signalled -/
+def tv (c : LexCore) (ex : List Sexp) : View := ⟨c, [], ex, true⟩
 
 def setToks (c : LexCore) (ts : List Token) : LexCore := { c with tokens := ts }
 
@@ -21,12 +21,17 @@ theorem runA_bind {α β : Type} (p : Prog α) (f : α → Prog β) (v : View) :
   | fail => rfl
   | waitPeek n k ih =>
     simp only [Prog.bind, runA]
-    cases peekWaitA n v.exprs v.runes v.core with
+    cases peekWaitA false n v.exprs v.fin v.runes v.core with
+    | tok t v' => exact ih t v'
+    | stop st v' => rfl
+  | signPeek k ih =>
+    simp only [Prog.bind, runA]
+    cases peekWaitA true 0 v.exprs v.fin v.runes v.core with
     | tok t v' => exact ih t v'
     | stop st v' => rfl
   | peekAt n k ih =>
     simp only [Prog.bind, runA]
-    cases peekWaitA n v.exprs v.runes v.core with
+    cases peekWaitA false n v.exprs v.fin v.runes v.core with
     | tok t v' =>
       simp only
       cases v'.core.tokens[n]? with
@@ -35,12 +40,12 @@ theorem runA_bind {α β : Type} (p : Prog α) (f : α → Prog β) (v : View) :
     | stop st v' => rfl
   | getTok k ih =>
     simp only [Prog.bind, runA]
-    cases peekWaitA 0 v.exprs v.runes v.core with
+    cases peekWaitA false 0 v.exprs v.fin v.runes v.core with
     | tok t v' => exact ih t _
     | stop st v' => rfl
   | topGet k ih =>
     simp only [Prog.bind, runA]
-    cases topGetA v.exprs v.runes v.core with
+    cases topGetA v.exprs v.fin v.runes v.core with
     | tok t v' => exact ih (some t) v'
     | finished st v' =>
       cases st with
